@@ -407,7 +407,13 @@ func (s *Netceptor) DialContext(ctx context.Context, node string, service string
 			_ = qs.Close()
 			_ = pc.Close()
 		case <-doneChan:
-			return
+			// The application closed its side. The ephemeral socket belongs to this connection only,
+			// so release it (service name, subscriptions, goroutines) once the connection has ended.
+			select {
+			case <-qc.Context().Done():
+			case <-s.context.Done():
+			}
+			_ = pc.Close()
 		}
 	}()
 	conn := &Conn{
